@@ -644,8 +644,8 @@ def judge_monitor(ctx, mon, world):
             return
         # stubs may sit at the public location of a re-exported class (pkg.sub.C for pkg._impl.C): a re-declaration
         # in a stub class of that name counts for the class the re-export leads to
-        last = cpath.rsplit(".", 1)[-1]
-        elsewhere = set().union(*[names for path, names in defs.items() if "." in path and path.rsplit(".", 1)[-1] == last and cpath.startswith(world["top"] + "._impl.")] or [set()])
+        # (the re-export may rename: `from pkg._impl import C as m` with the stubs declaring class m)
+        elsewhere = set().union(*[names for path, names in defs.items() if "." in path and cpath.startswith(world["top"] + "._impl.")] or [set()])
         if alias.name not in defs.get(cpath, ()) and alias.name not in elsewhere:
             ctx.fail("M-resolve-runtime-alias", f"merging resolved runtime alias {cpath}.{alias.name} -> {alias.target_path} although the stubs do not re-declare it", tags=["runtime-side"])
             return
